@@ -244,6 +244,91 @@ def raw_data_containment(res, seed):
             res.nontrivial.add("raw %d" % case)
 
 
+def live_market_book_containment(res, seed):
+    """the market-book dispatch of a LIVE framework (`BaseFlumine._process_market_books`, the loop `Flumine.run` uses): an exception
+    raised by one strategy's `process_new_market`, `check_market_book` or `process_market_book` is contained; the strategies registered
+    after it and the remaining books of the event are served, every strategy receives every callback of its stream exactly once and the
+    new-market callback exactly once per market"""
+    common.use_repo()
+    from unittest import mock
+    from flumine import Flumine, clients, BaseStrategy, config
+    from flumine.events import events
+    from flumine.exceptions import FlumineException
+    rng = random.Random(seed * 79 + 11)
+    for case in range(40):
+        fw = Flumine(client=clients.BetfairClient(mock.Mock(lightweight=False), username="u"))
+        fw.log_control = lambda e: None
+        n = rng.choice([2, 3, 4])
+        bad = rng.randrange(n)
+        bad_cb = rng.choice(["new", "new", "check", "book"])
+        bad_call = rng.randint(1, 3)
+        exc = rng.choice([ValueError, FlumineException, KeyError])
+        got = {i: [] for i in range(n)}
+        calls = {"n": 0}
+        sts = []
+        for i in range(n):
+            st = BaseStrategy(market_filter={}, name="live%d" % i)
+            st.streams = [mock.Mock(stream_id=55 if (i == bad or rng.random() < 0.8) else 66)]
+
+            def hit(kind, market, mb, i=i):
+                got[i].append((kind, mb.market_id, mb.publish_time_epoch))
+                if i == bad and kind == bad_cb:
+                    calls["n"] += 1
+                    if calls["n"] == bad_call:
+                        raise exc("injected by the checker")
+            st.process_new_market = lambda market, mb, hit=hit: hit("new", market, mb)
+            st.check_market_book = lambda market, mb, hit=hit: (hit("check", market, mb), True)[1]
+            st.process_market_book = lambda market, mb, hit=hit: hit("book", market, mb)
+            sts.append(st)
+            fw.strategies._strategies.append(st)
+        expected = []     # (kind, market, pt) a strategy on stream 55 is owed, in order (the injected call included)
+        seen_markets = set()
+        escaped = None
+        was = config.raise_errors
+        config.raise_errors = False
+        try:
+            pt = 1_900_000_000_000
+            for k in range(rng.randint(2, 4)):
+                books = []
+                for _ in range(rng.randint(1, 3)):
+                    pt += 500
+                    mid = "1.%d" % (80 + rng.randrange(3))
+                    books.append(mock.Mock(market_id=mid, streaming_snap=True, streaming_unique_id=55, status="OPEN", publish_time_epoch=pt,
+                                           market_definition=mock.Mock(status="OPEN"), runners=[]))
+                    if mid not in seen_markets:
+                        seen_markets.add(mid)
+                        expected.append(("new", mid, pt))
+                    expected += [("check", mid, pt), ("book", mid, pt)]
+                try:
+                    fw._process_market_books(events.MarketBookEvent(books))
+                except Exception as e:  # noqa
+                    escaped = repr(e)[:120]
+        finally:
+            config.raise_errors = was
+            for ex in (fw.simulated_execution, fw.betfair_execution, fw.betdaq_execution):
+                ex.shutdown()
+        res.evaluations += 1
+        res.distribution["live-book-dispatch:%s:%s" % (bad_cb, exc.__name__)] += 1
+        payload = {"seed": seed, "case": case, "mode": "live-market-books"}
+        if escaped:
+            res.violate("callback-error-escaped", "live market-book dispatch: %s raised in %s of strategy %d left _process_market_books (%s)" % (
+                exc.__name__, bad_cb, bad, escaped), payload)
+        for i, st in enumerate(sts):
+            exp = list(expected) if st.streams[0].stream_id == 55 else []
+            if i == bad and bad_cb == "check":
+                # the raising check_market_book returned nothing: its own process_market_book is skipped for that one book
+                hits = [e for e in exp if e[0] == "check"]
+                if len(hits) >= bad_call:
+                    _, m_, p_ = hits[bad_call - 1]
+                    exp.remove(("book", m_, p_))
+            if got[i] != exp:
+                res.violate("callback-error-not-contained", "live market-book dispatch: strategy %d received %d of the %d callbacks of its stream after "
+                            "strategy %d raised %s in %s" % (i, len(got[i]), len(exp), bad, exc.__name__, bad_cb), payload)
+                break
+        if calls["n"] >= bad_call:
+            res.nontrivial.add("livebook %d" % case)
+
+
 def run(res, tier, seed, model_ok, search):
     res.rule = ("isolation: 2..3 scripted strategies on shared markets and one client; run(all) vs run(each alone) vs run(reversed registration), "
                 "per-strategy ledgers (statuses, fills, sizes, times, profit) compared; containment: an exception injected at a random invocation "
@@ -253,6 +338,7 @@ def run(res, tier, seed, model_ok, search):
     big = tier != "quick" or search
     n_iso, n_inj = (1500, 3000) if big else (60, 150)
     raw_data_containment(res, seed)
+    live_market_book_containment(res, seed)
     iso = common.pmap(_iso_work, [(seed, i) for i in range(n_iso)], chunksize=2)
     inj = common.pmap(_inj_work, [(seed, i) for i in range(n_inj)], chunksize=4)
     for o in iso:
@@ -303,5 +389,13 @@ def replay(payload):
         for v in hits:
             print(v["signature"], "|", v["what"])
         print("raw-data dispatch case %s of seed %s: %d violation(s)" % (rp.get("case"), rp.get("seed"), len(hits)))
+        return 1 if hits else 0
+    if rp.get("mode") == "live-market-books":
+        res = common.Result()
+        live_market_book_containment(res, rp.get("seed", 0))
+        hits = [v for v in res.violations if (v.get("replay") or {}).get("case") == rp.get("case")]
+        for v in hits:
+            print(v["signature"], "|", v["what"])
+        print("live market-book dispatch case %s of seed %s: %d violation(s)" % (rp.get("case"), rp.get("seed"), len(hits)))
         return 1 if hits else 0
     return simcheck.generic_replay("C13", payload) if rp.get("scenario") and not rp.get("mode") else 1
